@@ -250,15 +250,18 @@ func c10msgType(kind string) comm.MessageType {
 // C10.cell <kind> <outcome>   the relayer under test is a participant of a session coordinated by relayer 1
 //   outcomes: refused | silent | gto | cancel | rejected | failed | noshare (constructor refuses: signing without a share)
 //   => L=<locks>,U=<unlocks>,F=<unlocks of an unlocked mutex>,H=<held at exit>,R=<held while the protocol ran: 1|0|->,A=<share accesses under lock>/<without>
-func c10cell(a []string) string {
+func c10cell(a []string) string { return c10cached("cell", c10cellRun, a) }
+
+func c10cached(op string, f Op, a []string) string {
+	key := op + " " + strings.Join(a, " ")
 	c10mu.Lock()
-	ch := c10pre[a[0]+" "+a[1]]
-	delete(c10pre, a[0]+" "+a[1])
+	ch := c10pre[key]
+	delete(c10pre, key)
 	c10mu.Unlock()
 	if ch != nil {
 		return <-ch
 	}
-	return c10cellRun(a)
+	return f(a)
 }
 
 var (
@@ -268,12 +271,12 @@ var (
 
 // c10prefetch starts a slow cell in the background (the FROST processes sleep 10 s before they can return);
 // the generator later collects the result through the ordinary op.
-func c10prefetch(kind, oc string) {
+func c10prefetch(op string, f Op, a ...string) {
 	ch := make(chan string, 1)
 	c10mu.Lock()
-	c10pre[kind+" "+oc] = ch
+	c10pre[op+" "+strings.Join(a, " ")] = ch
 	c10mu.Unlock()
-	go func() { ch <- safeRun(c10cellRun, []string{kind, oc}) }()
+	go func() { ch <- safeRun(f, a) }()
 }
 
 func c10cellRun(a []string) string {
@@ -397,7 +400,140 @@ func (w *c10world) startParams(kind, sid string) []byte {
 	return b
 }
 
+// C10.full <kind>   ran-and-succeeded: every needed relayer runs the real protocol to the end, in-process.
+//   signing kinds: relayers 0 and 1 (threshold+1 of the fixture shares; the third relayer is down);
+//   keygen / resharing: all three relayers.   => per relayer `ok;L=…`, joined by '|'
+func c10fullRun(a []string) string {
+	kind := a[0]
+	n := 3
+	if strings.HasSuffix(kind, "signing") {
+		n = 2
+	}
+	w := newC10World(n, !strings.HasSuffix(kind, "keygen"))
+	defer w.close()
+	sid := w.sidWithCoordinator("f", 0)
+	type res struct {
+		i int
+		r string
+	}
+	out := make(chan res, n)
+	cnts := make([]*lockCounter, n)
+	ctx, cancel := context.WithCancel(context.Background())
+	defer cancel()
+	for i := 0; i < n; i++ {
+		nd := w.nodes[i]
+		nd.coord.InitiatePeriod = 200 * time.Millisecond
+		proc, cnt, ok := w.mk(kind, nd, sid, 1)
+		cnts[i] = cnt
+		if !ok {
+			return "ctorerr"
+		}
+		i := i
+		go func() {
+			resultChn := make(chan interface{}, 4)
+			err := nd.coord.Execute(ctx, []tss.TssProcess{proc}, resultChn)
+			r := "ok"
+			if err != nil {
+				r = "err"
+			}
+			out <- res{i, r}
+		}()
+	}
+	rs := make([]string, n)
+	wait := 150 * time.Second
+	for k := 0; k < n; k++ {
+		select {
+		case r := <-out:
+			rs[r.i] = r.r + ";" + cnts[r.i].String()
+		case <-time.After(wait):
+			return "hang"
+		}
+	}
+	return strings.Join(rs, "|")
+}
+func c10full(a []string) string { return c10cached("full", c10fullRun, a) }
+
+// slowSubComm delays the process's own Subscribe until the harness lets it go (a scheduling delay made explicit).
+type slowSubComm struct {
+	*ledgerComm
+	slow    comm.MessageType
+	reached chan struct{}
+	release chan struct{}
+}
+
+func (s *slowSubComm) Subscribe(sid string, t comm.MessageType, ch chan *comm.WrappedMessage) comm.SubscriptionID {
+	if t == s.slow {
+		s.reached <- struct{}{}
+		<-s.release
+	}
+	return s.ledgerComm.Subscribe(sid, t, ch)
+}
+
+// C10.stuck <kind>   (ECDSA resharing | signing) the session is failed by its coordinator while Run is between its
+//   Subscribe and Party.Start: the context is already cancelled when the party hands over its first message.
+//   => ret;L=… as for `cell`, or hang;L=… when Execute does not return within 4 s
+func c10stuck(a []string) string {
+	kind := a[0]
+	w := newC10World(2, true)
+	defer w.close()
+	nd := w.nodes[0]
+	sid := w.sidWithCoordinator("s", 1)
+	slow := &slowSubComm{ledgerComm: nd.ledger, slow: c10msgType(kind), reached: make(chan struct{}, 1), release: make(chan struct{})}
+	var proc tss.TssProcess
+	var cnt *lockCounter
+	switch kind {
+	case "eresharing":
+		proc, cnt = eresharing.NewResharing(sid, 1, nd.host, slow, nd.ec), nd.ec.c
+	case "esigning":
+		p, err := esigning.NewSigning(big.NewInt(0x4d657373), sid, sid, nd.host, slow, nd.ec)
+		if err != nil {
+			return "ctorerr"
+		}
+		proc, cnt = p, nd.ec.c
+	default:
+		return "badkind"
+	}
+	ctx, cancel := context.WithCancel(context.Background())
+	defer cancel()
+	ret := make(chan error, 1)
+	go func() { ret <- nd.coord.Execute(ctx, []tss.TssProcess{proc}, make(chan interface{}, 4)) }()
+	ghost := w.nodes[1].ledger
+	if !waitUntil(c9wait, func() bool { return nd.ledger.inner.VerifLiveSubscriptions(sid) >= 3 }) {
+		return "hang-setup"
+	}
+	b, _ := message.MarshalStartMessage(w.startParams(kind, sid))
+	_ = ghost.inner.Broadcast(peer.IDSlice{w.ids[0]}, b, comm.TssStartMsg, sid)
+	select {
+	case <-slow.reached:
+	case <-time.After(c9wait):
+		return "hang-setup"
+	}
+	// Run is inside Subscribe: fail the session now and wait until the fail-watch has released its subscription
+	_ = ghost.inner.Broadcast(peer.IDSlice{w.ids[0]}, []byte{}, comm.TssFailMsg, sid)
+	if !waitUntil(c9wait, func() bool { return len(nd.ledger.inner.GetSubscribers(sid, comm.TssFailMsg)) == 0 }) {
+		return "hang-setup"
+	}
+	time.Sleep(5 * time.Millisecond)
+	close(slow.release)
+	select {
+	case err := <-ret:
+		r := "err"
+		if err == nil {
+			r = "ok"
+		}
+		return r + ";" + cnt.String()
+	case <-time.After(4 * time.Second):
+		if os.Getenv("VERIF_DUMP") != "" {
+			buf := make([]byte, 1<<20)
+			os.Stderr.Write(buf[:runtime.Stack(buf, true)])
+		}
+		return "hang;" + cnt.String()
+	}
+}
+
 func init() {
+	ops["C10.full"] = c10full
+	ops["C10.stuck"] = c10stuck
 	ops["C10.cell"] = c10cell
 	gens["C10"] = genC10
 }
@@ -405,8 +541,15 @@ func init() {
 var c10kinds = []string{"ekeygen", "fkeygen", "eresharing", "fresharing", "esigning", "fsigning"}
 
 func genC10(g *G) {
+	fulls := []string{"esigning", "fsigning", "fkeygen"}
+	if g.Thorough() {
+		fulls = c10kinds
+	}
+	for _, k := range fulls {
+		c10prefetch("full", c10fullRun, k)
+	}
 	for _, k := range []string{"fkeygen", "fresharing", "fsigning"} {
-		c10prefetch(k, "failed")
+		c10prefetch("cell", c10cellRun, k, "failed")
 	}
 	for _, k := range c10kinds {
 		for _, oc := range []string{"refused", "silent", "gto", "cancel", "rejected", "failed", "noshare"} {
@@ -418,5 +561,10 @@ func genC10(g *G) {
 			}
 			g.Emit("cell", k, oc)
 		}
+	}
+	g.Emit("stuck", "eresharing")
+	g.Emit("stuck", "esigning")
+	for _, k := range fulls {
+		g.Emit("full", k)
 	}
 }
